@@ -1,0 +1,17 @@
+//go:build verif
+
+// Verification hooks (add-only, compiled only with -tags verif).
+// Thin accessors for unexported state used by the /verif correspondence harness.
+
+package tlcp
+
+// VerifNewSession builds a SessionState with the given id and master secret.
+func VerifNewSession(id, master []byte, vers, suite uint16) *SessionState {
+	return &SessionState{sessionId: id, masterSecret: master, vers: vers, cipherSuite: suite}
+}
+
+// VerifSessionID returns the session identifier.
+func (s *SessionState) VerifSessionID() []byte { return s.sessionId }
+
+// VerifMaster returns the master secret slice (not a copy).
+func (s *SessionState) VerifMaster() []byte { return s.masterSecret }
